@@ -113,6 +113,28 @@ pub fn codec(inp: &str, outp: &str, skip: usize) {
                 let r = catch(|| assembly::MaslLibrary::read_from_bytes(&bytes).map_err(|e| format!("{e:?}")));
                 outcome(r, |v| v.to_bytes(), |v, b| assembly::MaslLibrary::read_from_bytes(b).map(|w| &w == v).unwrap_or(false))
             }
+            "LibraryPath" => {
+                let r = catch(|| assembly::LibraryPath::read_from_bytes(&bytes).map_err(|e| format!("{e:?}")));
+                outcome(r, |v| v.to_bytes(), |v, b| assembly::LibraryPath::read_from_bytes(b).map(|w| &w == v).unwrap_or(false))
+            }
+            // the same path bytes where a module's decoder meets them: as the import of a serialised module
+            "ModuleAst:import" => {
+                let placeholder = "zzplaceholder::qq";
+                let m = ModuleAst::parse(&format!("use.{placeholder}\nexport.f\n  exec.qq::g\nend\n")).expect("fixture module");
+                let mb = m.to_bytes(assembly::ast::AstSerdeOptions::new(true));
+                let mut pat = (placeholder.len() as u16).to_le_bytes().to_vec();
+                pat.extend_from_slice(placeholder.as_bytes());
+                match mb.windows(pat.len()).position(|w| w == &pat[..]) {
+                    None => json!({"outcome": "unknown_type", "msg": "import path not found in the fixture module"}),
+                    Some(pos) => {
+                        let mut spliced = mb[..pos].to_vec();
+                        spliced.extend_from_slice(&bytes);
+                        spliced.extend_from_slice(&mb[pos + pat.len()..]);
+                        let r = catch(|| ModuleAst::from_bytes(&spliced).map_err(|e| format!("{e:?}")));
+                        outcome(r, |v| v.to_bytes(assembly::ast::AstSerdeOptions::new(true)), |v, b| ModuleAst::from_bytes(b).map(|w| &w == v).unwrap_or(false))
+                    }
+                }
+            }
             _ => json!({"outcome": "unknown_type"}),
         };
         line["type"] = json!(ty);
